@@ -40,6 +40,9 @@ class Untranslatable(Exception):
 # types
 # ------------------------------------------------------------------------------------------------
 INT, BOOL, NUM, TAXON, GENOME, BYTE, BYTES, KSPEC, NONE = ('int',), ('bool',), ('num',), ('taxon',), ('genome',), ('byte',), ('bytes',), ('kspec',), ('none',)
+STR, CHAR, MSG, NUMINF = ('str',), ('char',), ('msg',), ('numinf',)
+# str  : text, a list of characters                      msg    : a message for people, identified by its first literal piece only
+# numinf : a distance or float('inf') (Option, none = inf)
 
 
 def OPT(t): return ('opt', t)
@@ -47,6 +50,24 @@ def LIST(t): return ('list', t)
 def SET(t): return ('set', t)
 def TUP(*ts): return ('tuple', tuple(ts))
 def DICT(k, v): return ('dict', k, v)
+
+
+def REC(name): return ('rec', name)
+
+
+# classes of the repository that are modelled as records (Lean structures of the same names in Model/PyRt.lean); `defaults` are the
+# attrs defaults (ClassifierResult.next_taxon, computed by GenomeMatch.next_taxon, is tied separately and not a field here)
+RECORDS = {
+	'GenomeMatch': dict(fields=[('genome', GENOME), ('distance', NUM), ('matched_taxon', OPT(TAXON))],
+	                    # attrs default of matched_taxon: matching_taxon(self.genome.taxon, self.distance)
+	                    defaults={'matched_taxon': ('call', 'matching_taxon', ['genome.taxon', 'distance'])}),
+	'QueryParams': dict(fields=[('classify_strict', BOOL), ('chunksize', OPT(INT)), ('report_closest', INT)], defaults={}),
+	'QueryResultItem': dict(fields=[('input', INT), ('classifier_result', ('rec', 'ClassifierResult')), ('report_taxon', OPT(TAXON)),
+	                                ('closest_genomes', ('list', ('rec', 'GenomeMatch')))], defaults={}),
+	'ClassifierResult': dict(fields=[('success', BOOL), ('predicted_taxon', OPT(TAXON)), ('primary_match', OPT(('rec', 'GenomeMatch'))),
+	                                 ('closest_match', ('rec', 'GenomeMatch')), ('warnings', ('list', ('msg',))), ('error', OPT(('msg',)))],
+	                         defaults={'warnings': '[]', 'error': 'none'}),
+}
 
 
 def lean_ty(t) -> str:
@@ -57,6 +78,12 @@ def lean_ty(t) -> str:
 	if k == 'byte': return 'UInt8'
 	if k == 'bytes': return 'List UInt8'
 	if k == 'kspec': return 'Py.KSpec'
+	if k == 'str': return 'List Char'
+	if k == 'db': return 'Unit'
+	if k == 'char': return 'Char'
+	if k == 'msg': return 'String'
+	if k == 'numinf': return 'Option Nat'
+	if k == 'rec': return f'Py.{t[1]}'
 	if k == 'opt': return f'Option ({lean_ty(t[1])})'
 	if k in ('list', 'set'): return f'List ({lean_ty(t[1])})'
 	if k == 'tuple': return '(' + ' × '.join(lean_ty(x) for x in t[1]) + ')'
@@ -71,8 +98,12 @@ def default(t) -> str:
 	if k in ('num', 'taxon', 'genome'): return '(0 : Nat)'
 	if k == 'byte': return '(0 : UInt8)'
 	if k == 'kspec': return '(default : Py.KSpec)'
-	if k == 'opt': return 'none'
-	if k in ('list', 'set', 'dict', 'bytes'): return '[]'
+	if k == 'db': return '()'
+	if k == 'char': return "' '"
+	if k == 'msg': return '""'
+	if k == 'rec': return f'(default : Py.{t[1]})'
+	if k in ('opt', 'numinf'): return 'none'
+	if k in ('list', 'set', 'dict', 'bytes', 'str'): return '[]'
 	if k == 'tuple': return '(' + ', '.join(default(x) for x in t[1]) + ')'
 	raise Untranslatable(f'no default for {t}')
 
@@ -84,7 +115,7 @@ LEAN_KEYWORDS = {'match', 'with', 'fun', 'let', 'in', 'at', 'do', 'end', 'from',
                  'postfix', 'nomatch', 'nofun', 'sorry', 'Type', 'Prop', 'Sort', 'true', 'false', 'abbrev', 'axiom', 'inductive', 'opaque',
                  'noncomputable', 'partial', 'unsafe', 'rec', 'suffices', 'obtain', 'termination_by', 'decreasing_by', 'at', 'is', 'as',
                  'hiding', 'renaming', 'elab', 'initialize', 'builtin_initialize', 'omit', 'include', 'set_option', 'deriving',
-                 's', 'x', 'r', 'v', 'F', 'G', 'St', 'Ret', 'run'}
+                 's', 'x', 'r', 'v', 'F', 'G', 'St', 'Ret', 'run', 'id'}
 
 
 def mangle(name: str) -> str:
@@ -136,6 +167,19 @@ FUNCS = [
 	dict(name='index_dtype', file='kmers.py', qual='index_dtype', module='PyKmerWrappers', env=[], params=[('k', INT)], ret=OPT(INT)),
 	dict(name='kmer_to_index', file='kmers.py', qual='kmer_to_index', module='PyKmerWrappers', env=[], params=[('kmer', BYTES)], ret=INT),
 	dict(name='kmer_to_index_rc', file='kmers.py', qual='kmer_to_index_rc', module='PyKmerWrappers', env=[], params=[('kmer', BYTES)], ret=INT),
+	dict(name='strip_extensions', file='cli/common.py', qual='strip_extensions', module='PyLabels', env=[],
+	     params=[('filename', STR), ('extensions', LIST(STR))], ret=STR),
+	dict(name='strip_seq_file_ext', file='cli/common.py', qual='strip_seq_file_ext', module='PyLabels', env=[], params=[('filename', STR)], ret=STR),
+	dict(name='get_file_id', file='cli/common.py', qual='get_file_id', module='PyLabels', env=[],
+	     params=[('path', STR), ('strip_dir', BOOL), ('strip_ext', BOOL)], ret=STR),
+	dict(name='reportable_taxon', file='db/models.py', qual='reportable_taxon', module='PyReportable', env=[ENV_F],
+	     params=[('taxon', OPT(TAXON))], ret=OPT(TAXON)),
+	dict(name='classify', file='classify.py', qual='classify', module='PyClassify', env=[ENV_F, ENV_G], strings='msg',
+	     params=[('ref_genomes', LIST(GENOME)), ('dists', LIST(NUM)), ('strict', BOOL)], ret=REC('ClassifierResult'),
+	     locals={'primary_match': OPT(REC('GenomeMatch')), 'best_i': OPT(INT), 'best_taxon': OPT(TAXON)}),
+	dict(name='get_result_item', file='query.py', qual='get_result_item', module='PyResultItem', env=[ENV_F, ENV_G], strings='msg',
+	     params=[('db', ('db',)), ('params', REC('QueryParams')), ('dists', LIST(NUM)), ('input', INT)], ret=REC('QueryResultItem'),
+	     locals={'closest': LIST(REC('GenomeMatch'))}),
 	dict(name='check_index', file='util/indexing.py', qual='AdvancedIndexingMixin._check_index', module='PyCheckIndex',
 	     env=[], params=[('self_len', INT), ('i', INT)], ret=INT, self_len='self_len'),
 ]
@@ -167,6 +211,10 @@ class Fn:
 		self.order = [n for n, _ in decl['params']]
 		self.narrow = set()                 # keys of Optional expressions known to be non-None here
 		self.calls = set()                  # modules of the translated functions this one calls
+		self.consts = {}                    # module-level literal constants
+		self.pre = []                       # hoisted calls of translated functions of the statement being translated
+		self.nohoist = 0                    # > 0 inside operands that are evaluated conditionally (and / or / conditional expression / loop test)
+		self.nv = 0
 		self.gen = decl.get('generator')
 		for n, t in (decl.get('locals') or {}).items():
 			self.vars[n] = t
@@ -189,6 +237,8 @@ class Fn:
 			old = self.vars[name]
 			if old != ty:
 				if old[0] == 'opt' and (ty == NONE or old[1] == ty):
+					return
+				if old == NUMINF and ty == NUM:
 					return
 				if ty[0] == 'opt' and ty[1] == old:           # later assignment makes it Optional
 					self.vars[name] = ty
@@ -213,6 +263,12 @@ class Fn:
 			return E(f'(some {e.lean})', ty, e.raises)
 		if e.ty[0] == 'opt' and e.ty[1] == ty:
 			return self.unwrap(e, 'TypeError')
+		if e.ty == NUM and ty == NUMINF:
+			return E(f'(some {e.lean})', ty, e.raises)
+		if e.ty == NUMINF and ty == NUM:      # float('inf') where a distance is expected: outside the model, reported as an exception
+			return E(f'(({e.lean}).getD 0)', ty, e.raises + [(f'({e.lean}).isNone', 'Other')])
+		if e.ty[0] == 'tuple' and ty[0] == 'list' and getattr(e, 'parts', None) is not None and all(p.ty == ty[1] for p in e.parts):
+			return E('[' + ', '.join(p.lean for p in e.parts) + ']', ty, e.raises)     # a tuple used as a homogeneous sequence
 		if e.ty[0] == 'set' and ty[0] == 'set' and e.ty[1] == NONE:
 			return E('[]', ty, e.raises)
 		if e.ty[0] == 'list' and ty[0] == 'list' and e.ty[1] == NONE:
@@ -252,7 +308,16 @@ class Fn:
 		if v is False: return E('false', BOOL)
 		if isinstance(v, int): return E(f'({v} : Int)', INT)
 		if isinstance(v, bytes): return E('[' + ', '.join(str(b) for b in v) + ']', BYTES)
+		if isinstance(v, str):
+			if self.d.get('strings') == 'msg': return E(lean_str(v), MSG)
+			return E(f'({lean_str(v)}).toList', STR)
 		raise Untranslatable(f'constant {v!r}')
+
+	def e_JoinedStr(self, n):
+		# an f-string is a message for people: identified by its first literal piece (what is interpolated is not translated)
+		if self.d.get('strings') != 'msg': raise Untranslatable('f-string outside a message')
+		first = n.values[0].value if n.values and isinstance(n.values[0], ast.Constant) else ''
+		return E(lean_str(first), MSG)
 
 	def e_Name(self, n):
 		x = n.id
@@ -260,6 +325,8 @@ class Fn:
 			return E(f's.{x}', self.vars[x])
 		if x == 'NUCLEOTIDES':
 			return E('Py.NUCLEOTIDES', BYTES)
+		if x in self.consts:     # a module-level constant (literal)
+			return self.expr(self.consts[x])
 		raise Untranslatable(f'name {x}')
 
 	def e_Attribute(self, n):
@@ -269,6 +336,12 @@ class Fn:
 			return E(f's.{f}', t)
 		o = self.value(n.value, 'AttributeError')
 		t, a = o.ty, n.attr
+		if t[0] == 'rec':
+			f = dict(RECORDS[t[1]]['fields'])
+			if a not in f: raise Untranslatable(f'attribute .{a} of {t[1]}')
+			return E(f'{o.lean}.{mangle(a)}', f[a], o.raises)
+		if t == ('db',) and a == 'genomes':
+			return E('(List.range G.length)', LIST(GENOME), o.raises)
 		if t == TAXON and a == 'distance_threshold':
 			return E(f'(F.thrOf {o.lean})', OPT(NUM), o.raises)
 		if t == TAXON and a == 'parent':
@@ -301,7 +374,7 @@ class Fn:
 		"""truth value of an expression (`if x:` / `not x` / operands of and/or)"""
 		e = self.expr(n)
 		if e.ty == BOOL: return e
-		if e.ty[0] in ('list', 'set', 'dict', 'bytes'): return E(f'(!({e.lean}).isEmpty)', BOOL, e.raises)
+		if e.ty[0] in ('list', 'set', 'dict', 'bytes', 'str'): return E(f'(!({e.lean}).isEmpty)', BOOL, e.raises)
 		if e.ty == INT: return E(f'(decide ({e.lean} ≠ 0))', BOOL, e.raises)
 		if e.ty[0] == 'opt' and e.ty[1] in (TAXON, GENOME): return E(f'({e.lean}).isSome', BOOL, e.raises)
 		raise Untranslatable(f'truth value of {e.ty}')
@@ -309,8 +382,12 @@ class Fn:
 	def e_BoolOp(self, n):
 		saved = set(self.narrow)
 		parts = []
-		for v in n.values:
-			parts.append(self.truth(v))
+		for i, v in enumerate(n.values):
+			self.nohoist += 1 if i else 0
+			try:
+				parts.append(self.truth(v))
+			finally:
+				self.nohoist -= 1 if i else 0
 			if isinstance(n.op, ast.And):
 				self.narrow |= self.narrowing(v, True)
 			else:
@@ -369,6 +446,8 @@ class Fn:
 				raise Untranslatable(f'`in` between {a.ty} and {b.ty}')
 			return E(f'({lean})' if isinstance(op, ast.In) else f'(!({lean}))', BOOL, a.raises + b.raises)
 		a, b = self.value(l), self.value(r)
+		if a.ty == NUM and b.ty == NUMINF and isinstance(op, ast.Lt):
+			return E(f'(match {b.lean} with | none => true | some b_ => decide ({a.lean} < b_))', BOOL, a.raises + b.raises)
 		if a.ty != b.ty or a.ty not in (INT, NUM, TAXON, GENOME, BOOL, BYTE):
 			raise Untranslatable(f'comparison between {a.ty} and {b.ty}')
 		sym = {ast.Lt: '<', ast.LtE: '≤', ast.Gt: '>', ast.GtE: '≥', ast.Eq: '=', ast.NotEq: '≠'}.get(type(op))
@@ -394,10 +473,14 @@ class Fn:
 	def e_IfExp(self, n):
 		c = self.truth(n.test)
 		saved = set(self.narrow)
-		self.narrow = saved | self.narrowing(n.test, True)
-		a = self.expr(n.body)
-		self.narrow = saved | self.narrowing(n.test, False)
-		b = self.expr(n.orelse)
+		self.nohoist += 1
+		try:
+			self.narrow = saved | self.narrowing(n.test, True)
+			a = self.expr(n.body)
+			self.narrow = saved | self.narrowing(n.test, False)
+			b = self.expr(n.orelse)
+		finally:
+			self.nohoist -= 1
 		self.narrow = saved
 		ty = a.ty
 		if a.ty != b.ty:
@@ -425,9 +508,9 @@ class Fn:
 
 	def e_Subscript(self, n):
 		o = self.value(n.value)
-		if o.ty[0] not in ('list', 'bytes'):
+		if o.ty[0] not in ('list', 'bytes', 'str'):
 			raise Untranslatable(f'subscript of {o.ty}')
-		elt = BYTE if o.ty == BYTES else o.ty[1]
+		elt = BYTE if o.ty == BYTES else CHAR if o.ty == STR else o.ty[1]
 		if isinstance(n.slice, ast.Slice):
 			if n.slice.step is not None: raise Untranslatable('slice with a step')
 			lo = self.value(n.slice.lower) if n.slice.lower is not None else None
@@ -479,7 +562,7 @@ class Fn:
 				if isinstance(args[0], ast.Name) and args[0].id == 'self' and self.d.get('self_len'):
 					return E(f's.{self.d["self_len"]}', INT)
 				a = self.value(args[0])
-				if a.ty[0] not in ('list', 'set', 'dict', 'bytes'): raise Untranslatable(f'len of {a.ty}')
+				if a.ty[0] not in ('list', 'set', 'dict', 'bytes', 'str'): raise Untranslatable(f'len of {a.ty}')
 				return E(f'(({a.lean}).length : Int)', INT, a.raises)
 			if name == 'list' and len(args) == 1:
 				a = self.value(args[0])
@@ -501,6 +584,56 @@ class Fn:
 				e = E(f'({a.lean}, {b.lean})', TUP(INT, INT), a.raises + b.raises)
 				e.parts = [a, b]
 				return e
+			if name in self.known:
+				if self.nohoist: raise Untranslatable(f'call of {name} in a conditionally evaluated operand')
+				call, ty, raises = self.call_known(n)
+				self.nv += 1
+				self.pre.append((f'v{self.nv}', call, raises))
+				return E(f'v{self.nv}', ty)
+			if name == 'float' and len(args) == 1 and isinstance(args[0], ast.Constant) and args[0].value == 'inf':
+				return E('none', NUMINF)
+			if name == 'zip_strict' and len(args) == 2 and not kw:
+				a, b = self.value(args[0]), self.value(args[1])
+				if a.ty[0] != 'list' or b.ty[0] != 'list': raise Untranslatable('zip_strict of non-lists')
+				return E(f'(List.zip {a.lean} {b.lean})', LIST(TUP(a.ty[1], b.ty[1])),
+				         a.raises + b.raises + [(f'(decide (({a.lean}).length ≠ ({b.lean}).length))', 'ValueError')])
+			if name in RECORDS:
+				spec = RECORDS[name]
+				fields = dict(spec['fields'])
+				if set(kw) - set(fields): raise Untranslatable(f'{name}() with unknown fields {sorted(set(kw) - set(fields))}')
+				if len(args) > len(spec['fields']): raise Untranslatable(f'{name}() with too many arguments')
+				given = {fname: a for (fname, _), a in zip(spec['fields'], args)}
+				if set(given) & set(kw): raise Untranslatable(f'{name}() field given twice')
+				given.update(kw)
+				vals, parts, raises = {}, [], []
+				for fname, fty in spec['fields']:
+					if fname in given:
+						e = self.coerce(self.expr(given[fname]), fty, f'{name}.{fname}')
+						vals[fname] = e
+						parts.append(f'{mangle(fname)} := {e.lean}'); raises += e.raises
+					elif fname in spec['defaults'] and isinstance(spec['defaults'][fname], tuple):
+						# a default computed from the other fields by another translated function
+						_, fn, argspecs = spec['defaults'][fname]
+						if fn not in self.known: raise Untranslatable(f'default of {name}.{fname} needs {fn}')
+						if self.nohoist: raise Untranslatable(f'{name}() with a computed default in a conditionally evaluated operand')
+						d = self.known[fn]
+						self.calls.add(d['module'])
+						largs = []
+						for a in argspecs:
+							base, _, attr = a.partition('.')
+							v = vals[base].lean
+							if attr == 'taxon': v = f'(G.getD {v} 0)'
+							largs.append(v)
+						for en in d['env']:
+							if en not in self.d['env']: raise Untranslatable(f'{fn} needs environment {en[0]}')
+						self.nv += 1
+						self.pre.append((f'v{self.nv}', f'({fn} ' + ' '.join([en[0] for en in d['env']] + largs) + ')', list(raises)))
+						parts.append(f'{mangle(fname)} := v{self.nv}')
+					elif fname in spec['defaults']:
+						parts.append(f'{mangle(fname)} := {spec["defaults"][fname]}')
+					else:
+						raise Untranslatable(f'{name}() without {fname}')
+				return E('({ ' + ', '.join(parts) + f' }} : Py.{name})', REC(name), raises)
 			if name == 'seq_to_bytes' and len(args) == 1:
 				a = self.value(args[0])
 				if a.ty == BYTES: return a
@@ -518,8 +651,28 @@ class Fn:
 				e.parts = [a, b]
 				return e
 			raise Untranslatable(f'call of {name}')
-		if isinstance(f, ast.Attribute) and isinstance(f.value, ast.Name) and f.value.id in ('ckmers', 'np'):
+		if (isinstance(f, ast.Attribute) and isinstance(f.value, ast.Attribute) and isinstance(f.value.value, ast.Name)
+				and (f.value.value.id, f.value.attr, f.attr) == ('os', 'path', 'basename') and len(args) == 1 and not kw):
+			a = self.value(args[0])
+			if a.ty != STR: raise Untranslatable('os.path.basename of ' + str(a.ty))
+			return E(f'(GambitV.basename {a.lean})', STR, a.raises)
+		if isinstance(f, ast.Attribute) and isinstance(f.value, ast.Name) and f.value.id in ('ckmers', 'np', 'os'):
 			mod, m = f.value.id, f.attr
+			if mod == 'os' and m == 'fspath' and len(args) == 1 and not kw:
+				a = self.value(args[0])
+				if a.ty != STR: raise Untranslatable('os.fspath of ' + str(a.ty))
+				return a
+			if mod == 'np' and m == 'argsort' and len(args) == 1:
+				# only the stable sort has a defined result on ties
+				if set(kw) != {'kind'} or not (isinstance(kw['kind'], ast.Constant) and kw['kind'].value in ('stable', 'mergesort')):
+					raise Untranslatable('np.argsort without kind=\'stable\' (the order of equal keys is unspecified)')
+				a = self.value(args[0])
+				if a.ty != LIST(NUM): raise Untranslatable('np.argsort of ' + str(a.ty))
+				return E(f'((GambitV.stableArgsort {a.lean}).map (fun (i : Nat) => (i : Int)))', LIST(INT), a.raises)
+			if mod == 'np' and m == 'argmin' and len(args) == 1 and not kw:
+				a = self.value(args[0])
+				if a.ty != LIST(NUM): raise Untranslatable('np.argmin of ' + str(a.ty))
+				return E(f'((GambitV.argminFirst {a.lean} : Nat) : Int)', INT, a.raises + [(f'({a.lean}).isEmpty', 'ValueError')])
 			if mod == 'ckmers' and m in ('kmer_to_index', 'kmer_to_index_rc') and len(args) == 1 and not kw:
 				# the compiled encoder (tied to the model by Tie.Kmers): a ValueError for an invalid byte or more than 32 bytes
 				a = self.value(args[0])
@@ -553,6 +706,11 @@ class Fn:
 			if o.ty == BYTES and m == 'upper' and not args: return E(f'(GambitV.upper {o.lean})', BYTES, o.raises)
 			if o.ty == BYTES and m == 'lower' and not args: return E(f'(Py.lower {o.lean})', BYTES, o.raises)
 			if o.ty[0] == 'dict' and m == 'keys' and not args: return E(f'(({o.lean}).map (·.1))', LIST(o.ty[1]), o.raises)
+			if o.ty[0] == 'dict' and m == 'items' and not args: return E(o.lean, LIST(TUP(o.ty[1], o.ty[2])), o.raises)
+			if o.ty == STR and m == 'endswith' and len(args) == 1:
+				a = self.value(args[0])
+				if a.ty != STR: raise Untranslatable('endswith of ' + str(a.ty))
+				return E(f'(GambitV.endsWith {o.lean} {a.lean})', BOOL, o.raises + a.raises)
 			raise Untranslatable(f'method .{m} of {o.ty}')
 		raise Untranslatable('call of a computed function')
 
@@ -580,7 +738,14 @@ class Fn:
 		m = getattr(self, 's_' + type(st).__name__, None)
 		if m is None:
 			raise Untranslatable(f'statement {type(st).__name__} at line {st.lineno}')
-		return m(st, ind)
+		# calls of other translated functions inside the statement's expressions are evaluated first (`let vN ← Py.call …`)
+		saved, self.pre = self.pre, []
+		try:
+			text = m(st, ind)
+			pre = ''.join(self.guards(raises, ind) + f'{ind}let {v} ← Py.call {call}\n' for v, call, raises in self.pre)
+		finally:
+			self.pre = saved
+		return pre + text
 
 	def s_Pass(self, st, ind): return ''
 
@@ -594,6 +759,15 @@ class Fn:
 			return self.guards(e.raises, ind) + f'{ind}let s : St := {{ s with yielded := s.yielded ++ [{e.lean}] }}\n'
 		if isinstance(v, ast.Call) and isinstance(v.func, ast.Attribute) and v.func.attr == 'append' and len(v.args) == 1:
 			tgt = v.func.value
+			# rec.field.append(v) on a local record
+			if (isinstance(tgt, ast.Attribute) and isinstance(tgt.value, ast.Name) and tgt.value.id in self.vars
+					and self.vars[tgt.value.id][0] == 'rec'):
+				r = tgt.value.id
+				fields = dict(RECORDS[self.vars[r][1]]['fields'])
+				if tgt.attr in fields and fields[tgt.attr][0] == 'list':
+					a = self.coerce(self.value(v.args[0]), fields[tgt.attr][1], 'appended value')
+					f = mangle(tgt.attr)
+					return self.guards(a.raises, ind) + f'{ind}let s : St := {{ s with {r} := {{ s.{r} with {f} := s.{r}.{f} ++ [{a.lean}] }} }}\n'
 			if isinstance(tgt, ast.Name) and tgt.id in self.vars and self.vars[tgt.id][0] == 'list':
 				a = self.coerce(self.value(v.args[0]), self.vars[tgt.id][1], 'appended value')
 				return self.guards(a.raises, ind) + f'{ind}let s : St := {{ s with {tgt.id} := s.{tgt.id} ++ [{a.lean}] }}\n'
@@ -608,23 +782,66 @@ class Fn:
 		raise Untranslatable(f'expression statement at line {st.lineno}')
 
 	def s_Assign(self, st, ind):
-		if len(st.targets) != 1 or not isinstance(st.targets[0], ast.Name):
+		if len(st.targets) != 1:
+			raise Untranslatable(f'chained assignment at line {st.lineno}')
+		tgt, v = st.targets[0], st.value
+		known_call = isinstance(v, ast.Call) and isinstance(v.func, ast.Name) and v.func.id in self.known
+		# a, b = f(...)   for a translated function returning a tuple
+		if isinstance(tgt, ast.Tuple) and known_call and all(isinstance(t, ast.Name) for t in tgt.elts):
+			call, ty, raises = self.call_known(v)
+			if ty[0] != 'tuple' or len(ty[1]) != len(tgt.elts): raise Untranslatable(f'unpacking {ty} into {len(tgt.elts)} names')
+			out = self.guards(raises, ind) + f'{ind}let v ← Py.call {call}\n'
+			n = len(tgt.elts)
+			for i, (t, x) in enumerate(zip(tgt.elts, ty[1])):
+				proj = 'v' + ''.join(['.2'] * i) + ('.1' if i < n - 1 else '')
+				self.declare(t.id, x)
+				e = self.coerce(E(proj, x), self.vars[t.id], f'assignment to {t.id}')
+				self.narrow = {k for k in self.narrow if f"id='{t.id}'" not in k}
+				out += f'{ind}let s : St := {{ s with {t.id} := {e.lean} }}\n'
+			return out
+		# obj.field = e   on a local record
+		if isinstance(tgt, ast.Attribute) and isinstance(tgt.value, ast.Name) and tgt.value.id in self.vars and self.vars[tgt.value.id][0] == 'rec':
+			r = tgt.value.id
+			fields = dict(RECORDS[self.vars[r][1]]['fields'])
+			if tgt.attr not in fields: raise Untranslatable(f'assignment to .{tgt.attr} of {self.vars[r][1]}')
+			e = self.coerce(self.expr(v), fields[tgt.attr], f'assignment to {r}.{tgt.attr}')
+			self.narrow = {k for k in self.narrow if f"id='{r}'" not in k}
+			return self.guards(e.raises, ind) + f'{ind}let s : St := {{ s with {r} := {{ s.{r} with {mangle(tgt.attr)} := {e.lean} }} }}\n'
+		if not isinstance(tgt, ast.Name):
 			raise Untranslatable(f'assignment target at line {st.lineno}')
-		name = st.targets[0].id
-		v = st.value
+		name = tgt.id
+		# x = [elt for i in xs if c]  with an element expression that is not just `i`:  x = []; for i in xs: if c: x.append(elt)
+		if (isinstance(v, ast.ListComp) and len(v.generators) == 1 and isinstance(v.generators[0].target, ast.Name)
+				and not (isinstance(v.elt, ast.Name) and v.elt.id == v.generators[0].target.id)):
+			g = v.generators[0]
+			if name not in self.vars: raise Untranslatable(f'type of the list {name} built by a comprehension is not declared')
+			body = [ast.Expr(value=ast.Call(func=ast.Attribute(value=ast.Name(id=name, ctx=ast.Load()), attr='append', ctx=ast.Load()), args=[v.elt], keywords=[]))]
+			for c in reversed(g.ifs):
+				body = [ast.If(test=c, body=body, orelse=[])]
+			loop = ast.For(target=g.target, iter=g.iter, body=body, orelse=[])
+			ast.fix_missing_locations(ast.copy_location(loop, st))
+			for x in ast.walk(loop):
+				if not hasattr(x, 'lineno'): x.lineno = st.lineno
+			return f'{ind}let s : St := {{ s with {name} := [] }}\n' + self.stmt(loop, ind)
 		# call of another translated function:  x = f(a, b)
-		if isinstance(v, ast.Call) and isinstance(v.func, ast.Name) and v.func.id in self.known:
+		if known_call:
 			call, ty, raises = self.call_known(v)
 			self.declare(name, ty)
+			e = self.coerce(E('v', ty), self.vars[name], f'assignment to {name}')
 			self.narrow = {k for k in self.narrow if f"id='{name}'" not in k}
-			return self.guards(raises, ind) + f'{ind}let v ← Py.call {call}\n{ind}let s : St := {{ s with {name} := v }}\n'
+			return self.guards(raises, ind) + f'{ind}let v ← Py.call {call}\n{ind}let s : St := {{ s with {name} := {e.lean} }}\n'
 		return self.assign(name, self.expr(v), ind)
 
 	def call_known(self, v):
 		d = self.known[v.func.id]
 		self.calls.add(d['module'])
-		if v.keywords or len(v.args) != len(d['params']): raise Untranslatable(f'call of {v.func.id} with unexpected arguments')
-		args = [self.coerce(self.value(a), t, f'argument of {v.func.id}') for a, (_, t) in zip(v.args, d['params'])]
+		names = [n for n, _ in d['params']]
+		given = dict(zip(names, v.args))
+		for k in v.keywords:
+			if k.arg not in names or k.arg in given: raise Untranslatable(f'call of {v.func.id} with unexpected argument {k.arg}')
+			given[k.arg] = k.value
+		if len(v.args) > len(names) or set(given) != set(names): raise Untranslatable(f'call of {v.func.id} with unexpected arguments')
+		args = [self.coerce(self.expr(given[n]), t, f'argument of {v.func.id}') for n, t in d['params']]
 		for en in d['env']:
 			if en not in self.d['env']: raise Untranslatable(f'{v.func.id} needs environment {en[0]}')
 		call = f'({d["name"]} ' + ' '.join([en[0] for en in d['env']] + [a.lean for a in args]) + ')'
@@ -632,6 +849,8 @@ class Fn:
 
 	def s_AugAssign(self, st, ind):
 		if not isinstance(st.target, ast.Name): raise Untranslatable('augmented assignment target')
+		if self.vars.get(st.target.id) == MSG and isinstance(st.op, ast.Add):
+			return ''    # text appended to a message for people: the message stays identified by its first literal piece
 		return self.assign(st.target.id, self.e_BinOp(ast.BinOp(left=ast.Name(id=st.target.id, ctx=ast.Load()), op=st.op, right=st.value)), ind)
 
 	def s_AnnAssign(self, st, ind):
@@ -726,7 +945,11 @@ class Fn:
 		if st.orelse: raise Untranslatable('while … else')
 		fuel = self.d.get('fuel')
 		if not fuel: raise Untranslatable('while loop in a function without a declared fuel expression')
-		c = self.truth(st.test)
+		self.nohoist += 1
+		try:
+			c = self.truth(st.test)
+		finally:
+			self.nohoist -= 1
 		saved = set(self.narrow)
 		self.narrow = saved | self.narrowing(st.test, True)
 		body = ''.join(self.stmt(x, ind + '    ') for x in st.body)
@@ -765,6 +988,8 @@ class Fn:
 		problems = []
 
 		def reads(node, bound, extra=frozenset()):
+			# names bound by comprehensions inside the node are assigned before they are read
+			extra = set(extra) | {t.id for c in ast.walk(node) if isinstance(c, ast.comprehension) for t in ast.walk(c.target) if isinstance(t, ast.Name)}
 			for x in ast.walk(node):
 				if isinstance(x, ast.Name) and isinstance(x.ctx, ast.Load) and x.id in self.vars and x.id not in bound and x.id not in extra:
 					problems.append(f'{x.id} (line {x.lineno}) may be read before it is assigned')
@@ -862,6 +1087,21 @@ class Fn:
 		        f'def {d["name"]}.untranslatable : Bool := true\n')
 
 
+def lean_str(v: str) -> str:
+	return '"' + ''.join(c if (32 <= ord(c) < 127 and c not in '"\\') else f'\\u{{{ord(c):x}}}' for c in v) + '"'
+
+
+def module_consts(tree: ast.Module) -> dict:
+	"""module-level NAME = <literal> (str / int / bytes / tuples of those)"""
+	out = {}
+	def lit(v):
+		return isinstance(v, ast.Constant) and isinstance(v.value, (str, int, bytes)) or isinstance(v, ast.Tuple) and all(lit(x) for x in v.elts)
+	for st in tree.body:
+		if isinstance(st, ast.Assign) and len(st.targets) == 1 and isinstance(st.targets[0], ast.Name) and lit(st.value):
+			out[st.targets[0].id] = st.value
+	return out
+
+
 def rename_locals(node: ast.FunctionDef) -> ast.FunctionDef:
 	"""local variables whose names are Lean keywords (or binders of the generated code) get a trailing underscore"""
 	local = {a.arg for a in node.args.args} | {x.id for x in ast.walk(node) if isinstance(x, ast.Name) and isinstance(x.ctx, ast.Store)}
@@ -927,12 +1167,13 @@ def regenerate(repo: Path, out_dir: Path, stub: set = frozenset()) -> dict:
 				raise Untranslatable(f'definition {d["qual"]} not found in {d["file"]}')
 			if d['name'] in stub:
 				raise Untranslatable('generated definition did not type-check')
-			want = [a.arg for a in node.args.args if a.arg != 'self']
+			want = [a.arg for a in node.args.args + node.args.kwonlyargs if a.arg != 'self']
 			have = [n for n, _ in d['params'] if not n.startswith('self_')]
-			if want != have or node.args.vararg or node.args.kwarg or node.args.kwonlyargs:
+			if want != have or node.args.vararg or node.args.kwarg:
 				raise Untranslatable(f'parameters of {d["qual"]} are {want}, the declaration expects {have}')
 			node = rename_locals(node)
 			fn = Fn(d, node, known)
+			fn.consts = module_consts(tree)
 			out = fn.translate()
 			imports.setdefault(d['module'], set()).update(m for m in fn.calls if m != d['module'])
 			report['functions'].append(d['name'])
